@@ -711,3 +711,126 @@ func tail(s string, n int) string {
 	}
 	return s
 }
+
+// ---- selftest: engine (concrete mode) vs native execution of every harness ----
+
+func cmdSelftest(args []string) {
+	fs := flag.NewFlagSet("selftest", flag.ExitOnError)
+	repo := fs.String("repo", "/repo", "")
+	verif := fs.String("verif", "/verif", "")
+	tier := fs.String("tier", "quick", "")
+	fs.Parse(args)
+	var specs map[string]PropertySpec
+	data, err := os.ReadFile(filepath.Join(*verif, "checks.json"))
+	if err != nil {
+		fatal(err)
+	}
+	if err := json.Unmarshal(data, &specs); err != nil {
+		fatal(err)
+	}
+	lp, err := loadProgram(*repo, filepath.Join(*verif, "harness"))
+	if err != nil {
+		fatal(err)
+	}
+	known, _ := loadKnown(filepath.Join(*verif, "known_findings.json"))
+	knownOpen := map[string]bool{}
+	for _, k := range known {
+		if k.Status == "open" {
+			knownOpen[k.ID] = true
+			replayKnownOpen = append(replayKnownOpen, k.ID)
+		}
+	}
+	dir, _ := os.MkdirTemp("", "symgo-selftest-")
+	defer os.RemoveAll(dir)
+	type tcase struct {
+		rc     *replayCase
+		engine map[string]bool
+		note   string
+	}
+	var all []*tcase
+	var cases []*replayCase
+	patterns := [][]uint64{{0}, {1}, {2}, {0, 1, 2}, {1, 0}, {2, 1, 0, 1}}
+	ids := sortedKeys(specs)
+	for _, id := range ids {
+		if fs.NArg() > 0 && fs.Arg(0) != id {
+			continue
+		}
+		for _, hs := range specs[id].Tiers[*tier].Harnesses {
+			fn := lp.harnesses[hs.Name]
+			if fn == nil {
+				continue
+			}
+			for _, pat := range patterns {
+				vec := make([]uint64, 64)
+				for i := range vec {
+					vec[i] = pat[i%len(pat)]
+				}
+				cfg := defaultConfig()
+				cfg.Workers = 1
+				cfg.KnownOpen = knownOpen
+				cfg.Params = hs.Params
+				cfg.Vector = vec
+				cfg.MaxSteps = 20_000_000
+				eng := &Engine{prog: lp.prog, cfg: cfg, lp: lp}
+				registerIntrinsics(eng)
+				res := eng.RunHarness(fn)
+				tc := &tcase{engine: map[string]bool{}}
+				for _, v := range res.Violations {
+					tc.engine[v.Tag] = true
+				}
+				if len(res.Inconclusive) > 0 {
+					for k := range res.Inconclusive {
+						tc.note = k
+					}
+				}
+				v := &Violation{Harness: hs.Name, Tag: "selftest", Kind: "selftest", Vector: vec}
+				tc.rc = &replayCase{V: v, Params: hs.Params, File: filepath.Join(dir, fmt.Sprintf("%s-%d.json", hs.Name, len(cases)))}
+				cases = append(cases, tc.rc)
+				all = append(all, tc)
+			}
+		}
+	}
+	if err := runReplay(lp, *repo, *verif, dir, cases); err != nil {
+		fmt.Println("SELFTEST replay failed:", err)
+		os.Exit(2)
+	}
+	agree, skipped, mismatch := 0, 0, 0
+	for _, tc := range all {
+		if tc.rc.Outcome == nil || !tc.rc.Outcome.Ran {
+			skipped++
+			continue
+		}
+		if tc.note != "" {
+			// the engine could not finish this concrete vector (e.g. an assume that fails, a stub): not comparable
+			skipped++
+			continue
+		}
+		native := map[string]bool{}
+		for _, f := range tc.rc.Outcome.Fails {
+			if !strings.HasPrefix(f, "KNOWN:") {
+				native[f] = true
+			}
+		}
+		// the engine stops a concrete path at its first failing assertion (it
+		// then assumes the assertion, which is infeasible); natively the
+		// harness runs on. Compare the first failure.
+		first := ""
+		for _, f := range tc.rc.Outcome.Fails {
+			if !strings.HasPrefix(f, "KNOWN:") {
+				first = f
+				break
+			}
+		}
+		same := (len(tc.engine) == 0 && len(native) == 0) || (len(tc.engine) > 0 && tc.engine[first])
+		if same {
+			agree++
+		} else {
+			mismatch++
+			fmt.Printf("SELFTEST-MISMATCH harness=%s vector=%v engine=%v native=%v escaped=%q\n", tc.rc.V.Harness, tc.rc.V.Vector[:6], sortedKeysB(tc.engine), sortedKeysB(native), tc.rc.Outcome.Escaped)
+		}
+	}
+	fmt.Printf("SELFTEST concrete vectors: %d agree, %d mismatches, %d not comparable\n", agree, mismatch, skipped)
+	if mismatch > 0 {
+		os.Exit(1)
+	}
+}
